@@ -20,7 +20,8 @@ Witnesses of its negation (each replayed on the implementation and recorded as a
   `sticky_role_answers_offerers_own_role`  — setup clause on a re-offer that changes the DTLS role
 What is proved of `answer` is stated clause by clause: for ALL inputs `answer_count`,
 `answer_setup_ok(_desc)`, `answer_setup_complements`, `answer_direction_ok`, `answer_mux_ok(_desc)`,
-`answer_bundle_ok`, `answer_extmap_ok`, `answer_rtx_ok`, and for the re-negotiation audio path
+`answer_bundle_ok`, `answer_extmap_ok`, `answer_extmap_ids_offered`, `answer_rtx_ok`, (under `ExtWF` of the
+consulted section) `answer_extmap_nodup`, and for the re-negotiation audio path
 `answer_audio_reinvite_pts_offered`; under named, decidable, satisfiable hypotheses
 `answer_direction_ok_desc` (`DirSynced`), `answer_aligned_partial` (all mids present, `KindSynced`,
 mids not cleared), their conjunction `answer_valid_core_partial`, and `answer_valid_partial`:
@@ -320,6 +321,16 @@ theorem answer_extmap_ids_offered (c : Cfg) (t : TrxView) (remote : List Media) 
   unfold extIds
   exact List.mem_filterMap.mpr ⟨v', (mem_attrVals _ "extmap" v').mpr ⟨_, hmem, rfl, rfl⟩, hid⟩
 
+/-- **answer_extmap_nodup** — no duplicate extension ids: when the remote section that is consulted is
+well-formed for the echo (`ExtWF`: its own ids pairwise distinct, no `a=extmap` line mentioning two of
+the four URIs the answerer looks for — decidable), the extension ids of the answer section are pairwise
+distinct. Together with `answer_extmap_ids_offered` this is the property's extension clause relative to
+the consulted section. -/
+theorem answer_extmap_nodup (c : Cfg) (t : TrxView) (remote : List Media) (hasLocal : Bool) (role : Option Bool)
+    (mid : Str) (mux : Bool) (r : Media) (hr : remote.find? (fun s => s.mid = mid) = some r) (hwf : ExtWF r) :
+    (extIds (answerSection c t remote hasLocal role mid mux)).Nodup :=
+  extIds_answerSection_nodup c t remote hasLocal role mid mux r hr hwf
+
 /-! ### witnesses: the full statement is false -/
 
 def cfgDefault : Cfg := { mode := .webrtc, legacySip := false, muxRequire := true, audio := [], video := [], sctpPort := 5000 }
@@ -412,6 +423,9 @@ def vp8RtxSec : Media :=
               extAttr "10".toList RID_URI] }
 
 def bundleOffer : Desc := mkOffer [attr "group" "BUNDLE 0 1".toList] [opusSec, vp8RtxSec]
+
+/-- the hypothesis of `answer_extmap_nodup` holds for ordinary offered sections -/
+example : ExtWF vp8RtxSec ∧ ExtWF opusSec := by decide
 
 /-- non-vacuity of the positive theorems: a WebRTC offer (BUNDLE, opus + VP8 with RTX, extensions)
 whose codecs the default configuration also has gets a valid answer in the model. -/
